@@ -64,6 +64,15 @@ pub fn setup_veth(route: Route6) -> Result<(), String> {
     Ok(())
 }
 
+/// Run-time address changes on the advertising interface (the kernel notifies the service's
+/// netlink listener, as when an address is renumbered, withdrawn or expires).
+pub fn addr6_add(addr: &str, len: u8) -> Result<(), String> {
+    sh(&format!("ip -6 addr add {addr}/{len} dev {SRV_IF} nodad"))
+}
+pub fn addr6_del(addr: &str, len: u8) -> Result<(), String> {
+    sh(&format!("ip -6 addr del {addr}/{len} dev {SRV_IF}"))
+}
+
 pub fn teardown_veth() {
     let _ = sh(&format!("ip link del {SRV_IF}"));
     let _ = sh("ip link del wan0");
